@@ -70,6 +70,8 @@ TRANSPARENT = [
     r"cosmwasm_std::Uint256::from_uint128$",
     r"cosmwasm_std::Uint256::from_u128$",
     r"cosmwasm_std::Timestamp::nanos$",
+    r"cosmwasm_std::Uint64::u64$",
+    r"cosmwasm_std::Uint64::new$",
     r"cw_storage_plus::Map::key$",
     r"cw_storage_plus::Map::prefix$",
     r"cw_storage_plus::Map::sub_prefix$",
